@@ -178,11 +178,16 @@ def run(prop, args):
 
     # 2. histories from the specification
     execs = []
-    bfs, r = gen("bfs", 1 if quick else 2, args.seed, tag="igenb")
-    chk.add_tlc(r, "behaviour generation (ImageGen, breadth-first: all histories of depth %d)" % (1 if quick else 2))
-    if len(bfs) > 12000:
-        bfs = rng.sample(bfs, 12000)
-    rnd, r = gen("generate", 6, args.seed, n=700 if quick else 6000)
+    bfs1, r = gen("bfs", 1, args.seed, tag="igenb")
+    chk.add_tlc(r, "behaviour generation (ImageGen, breadth-first: all histories of depth 1)")
+    bfs2, r = gen("bfs", 2, args.seed, tag="igenb")
+    chk.add_tlc(r, "behaviour generation (ImageGen, breadth-first: all histories of depth 2)")
+    # of the depth-2 histories: every one that calls the same setter twice (early-return guards), the others sampled
+    same = [b for b in bfs2 if b[1]["j"] == b[2]["j"] and b[0]["r0"] == 1]
+    other = [b for b in bfs2 if b[1]["j"] != b[2]["j"]]
+    bfs = bfs1 + same + rng.sample(other, min(len(other), 500 if quick else 10000))
+    chk.extra["depth2_same_setter_twice"] = len(same)
+    rnd, r = gen("generate", 6, args.seed, n=500 if quick else 8000)
     chk.add_tlc(r, "behaviour generation (ImageGen, -generate depth 6)")
     chk.sample({"tlc_generated_history": [dict((k, v) for k, v in s.items() if k != "want") for s in rnd[0]]})
     for k, b in enumerate(bfs):
